@@ -9,7 +9,12 @@ mod interp;
 use std::io::Write;
 
 fn main() {
-    std::panic::set_hook(Box::new(|_| {}));
+    // panics are expected and silent — except std's checks of unsafe preconditions (debug builds), which do
+    // not unwind: their message is the only trace of an unchecked out-of-bounds access
+    std::panic::set_hook(Box::new(|info| {
+        let msg = info.to_string();
+        if msg.contains("unsafe precondition") { eprintln!("UBCHECK: {}", msg.replace('\n', " ")); }
+    }));
     let args: Vec<String> = std::env::args().collect();
     match args.get(1).map(|s| s.as_str()) {
         Some("shapes") => {
@@ -18,6 +23,9 @@ fn main() {
         Some("run") | Some("run1") => {
             // run1 <file> <k>: only scenario k, every line printed as soon as it is produced
             let only: Option<usize> = if args[1] == "run1" { interp::LIVE.with(|l| l.set(true)); Some(args[3].parse().unwrap()) } else { None };
+            // run <file> [start]: skip the first `start` scenarios (resuming after a scenario that killed the process)
+            let start: usize = if args[1] == "run" && args.len() > 3 { args[3].parse().unwrap() } else { 0 };
+            let stop: usize = if args[1] == "run" && args.len() > 4 { args[4].parse().unwrap() } else { usize::MAX };
             let text = std::fs::read_to_string(&args[2]).expect("scenario file");
             let lines: Vec<&str> = text.lines().filter(|l| !l.trim().is_empty() && !l.starts_with('#')).collect();
             let stdout = std::io::stdout();
@@ -28,13 +36,13 @@ fn main() {
                 assert!(head[0] == "shape", "scenario must start with a shape line: {}", lines[i]);
                 let mut j = i + 1;
                 while j < lines.len() && !lines[j].starts_with("shape ") { j += 1; }
-                if only.is_some() && only != Some(k) { i = j; k += 1; continue; }
+                if (only.is_some() && only != Some(k)) || k < start || k >= stop { i = j; k += 1; continue; }
                 let mut out = String::new();
                 let head_line = format!("# scenario {} shape {}\n", k, interp::shape_desc(head[1]).unwrap_or_else(|| "unknown".into()));
                 if only.is_some() { let mut l = stdout.lock(); l.write_all(head_line.as_bytes()).unwrap(); l.flush().unwrap(); } else { out.push_str(&head_line); }
                 if !interp::run_shape(head[1], &lines[i + 1..j], &mut out) { out.push_str("bad-shape\n"); }
                 if only.is_some() { return; }
-                stdout.lock().write_all(out.as_bytes()).unwrap();
+                { let mut l = stdout.lock(); l.write_all(out.as_bytes()).unwrap(); l.flush().unwrap(); }
                 i = j; k += 1;
             }
         }
